@@ -43,9 +43,9 @@ AGGS = ['mean', 'uniform', 'uniform_arith', 'rotated', 'drive', 'terngrad']
 def plan(tier):
   if tier == 'quick':
     return {'runs': 320, 'budget_s': 540, 'per_run_timeout_s': 500, 'selftest_runs': 6,
-            'selftest_runs_full': 32, 'shrink_budget_s': 120}
+            'selftest_runs_full': 32, 'shrink_budget_s': 120, 'max_runs_per_process': 400}
   return {'runs': 9000, 'budget_s': 1800, 'per_run_timeout_s': 900, 'selftest_runs': 12,
-          'selftest_runs_full': 64, 'shrink_budget_s': 240}
+          'selftest_runs_full': 64, 'shrink_budget_s': 240, 'max_runs_per_process': 400}
 
 
 def generate(seed, tier):
